@@ -217,6 +217,13 @@ class FD:
                 return base.attrs[e.attr]
             if base.attrs.get('__closed__'):
                 raise Raised('AttributeError', '%r object has no attribute %r' % (base._name, e.attr))
+            if base.attrs.get('__open__'):
+                # open-world object of a symbolic harness: an attribute the harness did not model is some other,
+                # distinct value (it is never equal to any marker the rule looks for)
+                v = Obj('%s.%s' % (base._name, e.attr))
+                v.attrs['__open__'] = True
+                base.attrs[e.attr] = v
+                return v
             raise Inconclusive('fdeval: %r has no modelled attribute %s' % (base, e.attr))
         if self.attr_hook is not None:
             return self.attr_hook(base, e.attr)
@@ -717,6 +724,8 @@ class FD:
                 raise Raised('KeyError', 'set.%s' % attr)
             except TypeError as ex:
                 raise Raised('TypeError', str(ex))
+        if isinstance(recv, (dict, list, set)) and attr == 'copy' and not args:
+            return recv.copy()
         if isinstance(recv, dict) and attr in ('items', 'keys', 'values'):
             return list(getattr(recv, attr)())
         if isinstance(recv, dict) and attr in ('update', 'setdefault', 'clear', 'pop'):
